@@ -582,10 +582,12 @@ func redactExternalURL(rawURL string) string {
 	return u.String()
 }
 
-// batchMetadata extracts custom metadata from a record batch.
+// batchMetadata extracts the batch's own custom metadata (the IPC message
+// level key/values that mark log, error and pointer batches), not the
+// schema's metadata.
 func batchMetadata(rec arrow.RecordBatch) arrow.Metadata {
-	if rec.Schema().HasMetadata() {
-		return rec.Schema().Metadata()
+	if withMeta, ok := rec.(arrow.RecordBatchWithMetadata); ok {
+		return withMeta.Metadata()
 	}
 	return arrow.Metadata{}
 }
